@@ -21,7 +21,7 @@ CELLS = [
 def correspondence(ctx):
     ctx.rule = ("wlgen family (lists of any size, every scheme, constant/preset/recipe separators, boundary and exact tapes) plus complete product "
                 "cells on the real code: for small lists EVERY tuple (capitalisation choice, word indices, separator index vectors) is run, each index "
-                "realised by a randomly chosen raw word of its fibre. Non-trivial = every distinct cell tuple; wlgen cases with Length >= 2.")
+                "realised by a randomly chosen raw word of its fibre. Every other wlgen case runs on a list that other recipes used first; 15% set SeparatorChar in addition to a separator function; tapes that run dry part-way; words and separators beyond 255 characters; synthetic lists of 65535..131073 words judged by the reference (index injectivity, documented draws). Non-trivial = every distinct cell tuple; wlgen cases with Length >= 2.")
     ctx.wl_results = wlgen.run_wlgen_family(ctx, wlgen.gen_cases(ctx, 250 if ctx.tier == "quick" else 3000))
     ctx.wl_big = wlgen.run_big_lists(ctx)
     for c, a, b in ctx.wl_results:
